@@ -12,6 +12,10 @@ type SDT struct {
 	Properties *SDTProperties `xml:"w:sdtPr"`
 	EndPr      *SDTEndPr      `xml:"w:sdtEndPr,omitempty"`
 	Content    *SDTContent    `xml:"w:sdtContent"`
+
+	// 目录SDT生成时请求的标题和最大级别（不序列化），UpdateTOC 用它们重建目录
+	tocTitle    string
+	tocMaxLevel int
 }
 
 // ElementType 返回SDT元素类型
@@ -129,6 +133,8 @@ func (d *Document) CreateTOCSDT(title string, maxLevel int) *SDT {
 		Content: &SDTContent{
 			Elements: []interface{}{},
 		},
+		tocTitle:    title,
+		tocMaxLevel: maxLevel,
 	}
 
 	// 添加目录标题段落
